@@ -39,6 +39,21 @@ def check(ctx):
     N = ctx.normalizer()
     cls = P.cls(CLS)
     site = ctx.site(P.method(cls, "fit"))
+    # flags given as numpy booleans (the result of a numpy comparison) are honoured by their truth value
+    from ..terms import V as _V, T as _T
+
+    for flag in ("with_mean", "with_std", "column_wise"):
+        npt = _V("bool", _T("const", True), shape=(), has_const=True, const_=True, labels=frozenset(["numpy-scalar"]))
+        I = ctx.interp(assume=_assume_noraise)
+        st = State()
+        o = ctx.construct(I, st, cls, **dict({"with_mean": True, "with_std": True, "column_wise": True, "rtol": scalar("rtol", 0, None, False), "atol": scalar("atol", 0, None, False)}, **{flag: npt}))
+        X = arr("X", "N", "M")
+        ctx.call_method(I, st, o, "fit", X)
+        I2, s2 = ctx.interp(), State()
+        ref = ctx.call_func(I2, s2, "ref.preprocessing_ref.scaler_fit", X, arr("w", "N"), True, True, True, False)
+        cfgn = f"{flag}=numpy.True_"
+        ctx.compare("R-FLAGS", f"mean_ [{cfgn}]", N, ctx.attr(st, o, "mean_"), ref.items[0], site, cfgn)
+        ctx.compare("R-FLAGS", f"scale_ [{cfgn}]", N, ctx.attr(st, o, "scale_"), ref.items[1], site, cfgn)
     for wm in (True, False):
         for ws in (True, False):
             for cw in (True, False):
